@@ -90,6 +90,16 @@ def step (st : St) (pre post : List String) : St × Verdict :=
         (st, if [mv] = post then .ok else .diff s!"transient get model={mv} impl={post}")
       | _ => (st, .bad "not transient")
     | _, _ => (st, .bad "tget")
+  | ["tgetc", id, store, k] =>
+    -- after a commit the transient stores are empty: every read-back must find nothing
+    match id.toNat? >>= findRun st with
+    | some r =>
+      match r.ms.stores.lookup (nm store) with
+      | some (.transient m) =>
+        if post.all (· = "~") then (st, if m.isEmpty then .ok else .diff "model transient store not empty after commit")
+        else (st, .propfail "transient-not-empty-after-commit" s!"run {id} store {store} key {k}: {post}")
+      | _ => (st, .bad "not transient")
+    | none => (st, .bad "tgetc")
   | ["commit", id] =>
     match id.toNat? >>= findRun st, post with
     | some r, [ver, hash, lver, lhash, infos, tsz] =>
@@ -120,7 +130,7 @@ def step (st : St) (pre post : List String) : St × Verdict :=
           else if civer ≠ ver then .propfail "commitinfo-version" s!"record={civer} returned={ver}"
           else if [lver, lhash] ≠ [ver.repr, hash.render] && [lver, lhash] ≠ [toString ver, if hash.isEmpty then "~" else hash.render] then .propfail "lastcommitid" s!"returned={ver} {hash.render} last={lver} {lhash}"
           else if dictBad.isSome then .propfail "hash-not-function-of-history" (dictBad.getD "")
-          else if tsz ≠ "-" && (tsz.splitOn ",").any (fun e => (e.splitOn ":").getLast? ≠ some "0") then .propfail "transient-not-reset" tsz
+          else if tsz ≠ "-" && (tsz.splitOn ",").any (fun e => (e.splitOn ":").getLast? ≠ some "0") then .propfail "transient-not-empty-after-commit" s!"entries left: {tsz}"
           else if implInfos ≠ ci.infos then .diff s!"store infos model≠impl: impl={infos}"
           else if ci.hash Sha256.sum ≠ hash then .diff s!"commit hash model={Bytes.render (ci.hash Sha256.sum)} impl={hash.render}"
           else
